@@ -3,7 +3,6 @@ package main
 import (
 	"bytes"
 	"fmt"
-	"io"
 
 	"github.com/ulikunitz/xz"
 	"github.com/ulikunitz/xz/lzma"
@@ -16,47 +15,6 @@ import (
 )
 
 func init() { register("SELFTEST", "other", selfTest) }
-
-// libReadAll decodes with the library's xz reader.
-func libXZ(in []byte, cfg xz.ReaderConfig) (out []byte, err error) {
-	defer func() {
-		if p := recover(); p != nil {
-			err = fmt.Errorf("PANIC: %v", p)
-		}
-	}()
-	r, err := cfg.NewReader(bytes.NewReader(in))
-	if err != nil {
-		return nil, fmt.Errorf("open: %w", err)
-	}
-	out, err = io.ReadAll(r)
-	return out, err
-}
-
-func libLZMA(in []byte) (out []byte, err error) {
-	defer func() {
-		if p := recover(); p != nil {
-			err = fmt.Errorf("PANIC: %v", p)
-		}
-	}()
-	r, err := lzma.ReaderConfig{DictCap: 4096}.NewReader(bytes.NewReader(in))
-	if err != nil {
-		return nil, fmt.Errorf("open: %w", err)
-	}
-	return io.ReadAll(r)
-}
-
-func libLZMA2(in []byte, dict int) (out []byte, err error) {
-	defer func() {
-		if p := recover(); p != nil {
-			err = fmt.Errorf("PANIC: %v", p)
-		}
-	}()
-	r, err := lzma.Reader2Config{DictCap: dict}.NewReader2(bytes.NewReader(in))
-	if err != nil {
-		return nil, fmt.Errorf("open: %w", err)
-	}
-	return io.ReadAll(r)
-}
 
 // selfTest is the development-time differential test of the reference against
 // liblzma and the library (not a property check).
@@ -76,7 +34,7 @@ func selfTest(c *ev.Ctx) {
 		data := gen.Data(r, fam, r.Pick(0, 1, 5, 100, 1000, 20000, 100000))
 		cfg := xz.WriterConfig{DictCap: r.Pick(4096, 8192, 65536, 1<<20), BufSize: r.Pick(273, 4096),
 			Properties: &lzma.Properties{LC: r.Intn(5), LP: 0, PB: r.Intn(5)},
-			BlockSize: int64(r.Pick(0, 0, 1000, 70000)), CheckSum: byte(r.Pick(1, 4, 10)), Matcher: lzma.MatchAlgorithm(r.Intn(2))}
+			BlockSize:  int64(r.Pick(0, 0, 1000, 70000)), CheckSum: byte(r.Pick(1, 4, 10)), Matcher: lzma.MatchAlgorithm(r.Intn(2))}
 		if cfg.Properties.LC < 4 {
 			cfg.Properties.LP = r.Intn(5 - cfg.Properties.LC)
 		}
